@@ -73,11 +73,13 @@ impl Monitor for C03 {
                 if minted != got {
                     out.violation(P, "bond_mint", format!("bond: supply grew by {} but {} received {}", minted, user, got));
                 }
-                if minted > m0 || minted + cap < m0 {
+                if minted > m0 || minted + cap + ((cap > 0) as u128) < m0 {
                     out.violation(P, "bond_mint", format!("bond of {} at rate {}: minted {} but floor(payment/rate) = {} (fee cap {})", amount, pre.rb, minted, m0, cap));
                 }
+                // floor(payment / rate) may be 0 for a payment below one token's worth: issuing nothing for it is what
+                // the formula says (the shipped hub fails such a bond inside the token's zero-mint check); counted
                 if minted == 0 {
-                    out.violation(P, "zero_mint", "a bond succeeded without issuing tokens".into());
+                    out.count("c03.operations_issuing_nothing");
                 }
                 if post.raw_pool_b != pre.pool_b + amount || post.raw_pool_s != pre.pool_s {
                     out.violation(P, "bond_pool", format!("bond of {}: pools ({},{}) -> ({},{})", amount, pre.pool_b, pre.pool_s, post.raw_pool_b, post.raw_pool_s));
@@ -89,7 +91,7 @@ impl Monitor for C03 {
                 let minted = post.stsei.supply - pre.stsei.supply;
                 let got = post.stsei.balances.get(user).cloned().unwrap_or(0) - pre.stsei.balances.get(user).cloned().unwrap_or(0);
                 let m0 = div_rate(*amount, pre.rs);
-                if minted != m0 || got != m0 || minted == 0 {
+                if minted != m0 || got != m0 {
                     out.violation(P, "bond_mint", format!("stSei bond of {} at rate {}: minted {} (recipient +{}), expected {}", amount, pre.rs, minted, got, m0));
                 }
                 if post.raw_pool_s != pre.pool_s + amount || post.raw_pool_b != pre.pool_b {
@@ -109,7 +111,8 @@ impl Monitor for C03 {
                 if burnt != *amount {
                     out.violation(P, "convert", format!("convert stSei->bSei of {}: stSei supply fell by {}", amount, burnt));
                 }
-                if minted != got || minted > m0 || minted + cap < m0 || minted == 0 {
+                // (one unit of slack below: the proportional cap may be applied to the payment or to the tokens)
+                if minted != got || minted > m0 || minted + cap + ((cap > 0) as u128) < m0 {
                     out.violation(P, "convert", format!("convert stSei->bSei of {}: value {} at rates ({},{}) should mint {} (fee cap {}), minted {} (recipient +{})", amount, equiv, pre.rs, pre.rb, m0, cap, minted, got));
                 }
                 if post.raw_pool_b != pre.pool_b + equiv || post.raw_pool_s + equiv != pre.pool_s {
@@ -134,7 +137,7 @@ impl Monitor for C03 {
                     out.violation(P, "convert", format!("convert bSei->stSei of {} at rate {}: moved {} coins, allowed [{}, {}]", amount, pre.rb, equiv, min_equiv, nofee_equiv));
                 }
                 let m = div_rate(equiv, pre.rs);
-                if minted != m || got != m || minted == 0 {
+                if minted != m || got != m {
                     out.violation(P, "convert", format!("convert bSei->stSei: value {} at stSei rate {} should mint {}, minted {} (recipient +{})", equiv, pre.rs, m, minted, got));
                 }
                 if post.raw_pool_s != pre.pool_s + equiv {
